@@ -10,11 +10,12 @@ LexicalDts == {"DT", "TM", "DTM", "NM", "SI"}
 InvalidAccepted(e) == /\ e.out_s = "ok" /\ e.leafdt \in LexicalDts /\ e.leafin # <<>>
                       /\ ~L!Is(e.leafdt, e.leafin) /\ ~L!Unspecified(e.leafdt, e.leafin)
 (* the maximum lengths HL7 gives the textual datatypes (a leaf built through SubComponent(datatype, value)) *)
-HL7Max(dt) == CASE dt = "ST" -> 199 [] dt = "IS" -> 20 [] dt = "FT" -> 65536 [] dt = "TX" -> 65536 [] OTHER -> 0
+\* (version 2.6 has an ST class of its own with 999; e.conc is the version of a leaf observation)
+HL7Max(dt, v) == CASE dt = "ST" -> (IF v = "2.6" THEN 999 ELSE 199) [] dt = "IS" -> 20 [] dt = "FT" -> 65536 [] dt = "TX" -> 65536 [] OTHER -> 0
 Verdict(e) ==
   IF InvalidAccepted(e) THEN "invalid_value_accepted_by_strict"
-  ELSE IF e.out_s = "ok" /\ HL7Max(e.leafdt) > 0 /\ e.leaflen > HL7Max(e.leafdt) THEN "overlong_value_accepted_by_strict"
-  ELSE IF e.out_s # "ok" /\ HL7Max(e.leafdt) > 0 /\ e.leaflen <= HL7Max(e.leafdt) /\ e.out_s = "MaxLengthReached"
+  ELSE IF e.out_s = "ok" /\ HL7Max(e.leafdt, e.conc) > 0 /\ e.leaflen > HL7Max(e.leafdt, e.conc) THEN "overlong_value_accepted_by_strict"
+  ELSE IF e.out_s # "ok" /\ HL7Max(e.leafdt, e.conc) > 0 /\ e.leaflen <= HL7Max(e.leafdt, e.conc) /\ e.out_s = "MaxLengthReached"
        THEN "value_within_the_maximum_length_refused_by_strict"
   ELSE IF e.out_s = "ok" /\ e.dt_given # "" /\ e.dt_official \notin {"", "varies"} /\ e.dt_given # e.dt_official
        THEN "datatype_overridden_under_strict"           \* (constructor given a datatype other than the table's)
